@@ -67,6 +67,9 @@ pub fn judge(j: &Judge, sc: &Scenario, info: &mut CaseInfo, mut extra: impl FnMu
         world.publish(step);
         let prev = state.clone();
         let exp = model_step(sc, step, &mut state);
+        if std::env::var_os("RV_MODEL_DEBUG").is_some() {
+            eprintln!("model step {}: accepted={:?} rejected={:?} skipped={:?} ta_local={:?} ta_store={:?} local_modules={:?} local={:?} stored={:?}", n, exp.accepted, exp.rejected, exp.skipped, state.ta_local, state.ta_store, state.local_modules, state.local, state.stored);
+        }
         let out = match world.run_with(step.offline, &exceptions, |c| {
             if let Some(st) = step.stale {
                 c.stale = policy(st);
